@@ -111,8 +111,33 @@ CookieOf(a, secureDefault) ==
 (* unset_cookie arguments: samesite (verbatim, default "Lax"), domain, path *)
 UnsetOf(u) == CookieRec("", -2, FALSE, 0, u.domain, u.path, FALSE, FALSE, u.samesite, FALSE, TRUE)
 
-(* what the code does when the name is already in the jar (http.cookies re-uses the Morsel):
-   attributes the new call does not mention survive.  Used only with FreshCookie = FALSE. *)
+(* unset_cookie on a name already written in this response.  The property cannot decide "exactly the
+   requested attributes" here: unset_cookie cannot be asked for Secure/HttpOnly/Partitioned, and falcon's own
+   suite pins that they survive from the earlier write.  So the specification ALLOWS inheritance:
+     stated (P):    value empty, expired (Expires in the past, no Max-Age left), SameSite as given,
+                    Domain/Path as given when this call gave them
+     free   (D):    every attribute this call did not give is absent or inherited from the earlier write
+   InheritUnset is the model of the code (everything inherited except Max-Age, which is cleared). *)
+InheritUnset(old, new) ==
+    CookieRec("", -2, FALSE, 0,
+              IF new.domain # "" THEN new.domain ELSE old.domain,
+              IF new.path # "" THEN new.path ELSE old.path,
+              old.secure, old.httponly, new.samesite, old.partitioned, TRUE)
+(* held cookie j satisfies the unset request w (= UnsetOf(u)) *)
+UnsetAsked(j, w) ==
+    /\ j.unset /\ j.value = "" /\ j.exp = -2 /\ j.samesite = w.samesite
+    /\ (w.domain # "" => j.domain = w.domain)
+    /\ (w.path # "" => j.path = w.path)
+(* what a later unset_cookie may inherit from the writes so far (the attributes a Morsel keeps) *)
+InhRec(domain, path, secure, httponly, partitioned, prev) ==
+    [domain |-> domain, path |-> path, secure |-> secure, httponly |-> httponly, partitioned |-> partitioned, prev |-> prev]
+NoInh == InhRec("", "", FALSE, FALSE, FALSE, FALSE)
+InhOfSet(c) == InhRec(c.domain, c.path, c.secure, c.httponly, c.partitioned, FALSE)
+InhOfUnset(o, u, prev) == InhRec(IF u.domain # "" THEN u.domain ELSE o.domain, IF u.path # "" THEN u.path ELSE o.path,
+                                 o.secure, o.httponly, o.partitioned, prev)
+
+(* wrong design (FreshCookie = FALSE, the code before the repair): http.cookies re-uses the Morsel of a name
+   that is already in the jar, so attributes the new call does not mention survive, Max-Age included *)
 MergeSet(old, new) ==
     CookieRec(new.value,
               IF new.exp # -1 THEN new.exp ELSE old.exp,
